@@ -12,7 +12,7 @@ trap cleanup EXIT
 cd $wt
 demo=$(ls $src/demo.py $src/demo_test.py 2>/dev/null | head -1)
 run_demo() { if [[ $demo == *demo_test.py ]]; then PYTHONPATH=$wt timeout 300 /venv/bin/python -m pytest -q -p no:cacheprovider $demo >/dev/null 2>&1; else PYTHONPATH=$wt timeout 300 /venv/bin/python $demo >/dev/null 2>&1; fi; echo $?; }
-run_tests() { [ -z "$tests" ] && { echo "none"; return; }; PYTHONPATH=$wt timeout 1700 /venv/bin/python -m pytest -q -p no:cacheprovider -x --no-header -rN $tests 2>&1 | grep -E "^(FAILED|ERROR)" | sort | md5sum | cut -c1-8; }
+run_tests() { [ -z "$tests" ] && { echo "none"; return; }; PYTHONPATH=$wt timeout 1700 /venv/bin/python -m pytest -q -p no:cacheprovider --no-header -rN $tests 2>&1 | grep -E "^(FAILED|ERROR)" | sort | md5sum | cut -c1-8; }
 un_demo=$(run_demo)
 un_tests=$(run_tests)
 git apply --3way $src/patch.diff 2>/dev/null || git apply $src/patch.diff || { echo "$id: PATCH DOES NOT APPLY"; exit 3; }
